@@ -249,6 +249,9 @@ func runC06(r *Run) {
 	v4.Done()
 	// the reviewed length limits of the setters: a valid value must not be refused (shared with C09)
 	r.Borrow("C09", map[string]string{"C09.limits": "C06.limits"})
+	// reading back yields the value that was added, whatever the destination held before: every success path of a
+	// getter assigns its whole destination (shared with C07)
+	r.Borrow("C07", map[string]string{"C07.fresh": "C06.destfresh"})
 }
 
 func checkAddrTables(r *Run, rc *RuleCtx, le *linEval, tn string, xored bool, add *ssa.Function) {
@@ -401,14 +404,14 @@ func checkAddrTables(r *Run, rc *RuleCtx, le *linEval, tn string, xored bool, ad
 		case xored && s.Kind == "xor" && s.Role == "src":
 			if l, ok := s.Lo.isConst(); ok && l == 4 && s.Hi == nil {
 				args := callArgs(s.In)
-				if valueIsLoadOfField(stripConvs(args[0]), ipF) {
+				if valueIsLoadOfField(stripConvs(args[0]), ipF) || viaField(stripConvs(args[0]), ipF) {
 					okAddr = true
 					mask = args[2]
 				}
 			}
 			rc.Instance(tn+"|reader address", true, map[string]string{"site": describeSite(s)})
 		case !xored && s.Kind == "copy" && s.Role == "src":
-			if l, ok := s.Lo.isConst(); ok && l == 4 && s.Hi == nil && valueIsLoadOfField(stripConvs(s.Val), ipF) {
+			if l, ok := s.Lo.isConst(); ok && l == 4 && s.Hi == nil && (valueIsLoadOfField(stripConvs(s.Val), ipF) || viaField(stripConvs(s.Val), ipF)) {
 				okAddr = true
 			}
 			rc.Instance(tn+"|reader address", true, map[string]string{"site": describeSite(s)})
@@ -617,6 +620,16 @@ func checkErrorCodeTable(r *Run, rc *RuleCtx, le *linEval, add *ssa.Function) {
 	if !okNum {
 		rc.Violation(w, w.Pos(), "ERROR-CODE writer number byte", "byte 3 must be code % 100")
 	}
+	// what is encoded is the attribute as given: the writer does not rewrite the fields of its (by-value) receiver
+	eachInstr(w, func(b *ssa.BasicBlock, i int, in ssa.Instruction) {
+		if st, ok := in.(*ssa.Store); ok {
+			if fa, isFA := st.Addr.(*ssa.FieldAddr); isFA {
+				if fv := fieldOfAddr(fa); fv != nil && (fv == codeF || fv == reasonF) {
+					rc.Violation(w, instrPos(st), "ERROR-CODE writer rewrites "+fv.Name(), "the setter changes the "+fv.Name()+" it was given before encoding it: the attribute read back is not the one that was added (an empty reason must stay empty)")
+				}
+			}
+		}
+	})
 	if !okReason {
 		rc.Violation(w, w.Pos(), "ERROR-CODE writer reason", "the reason phrase must start at byte 4")
 	}
@@ -850,6 +863,18 @@ func checkUnknownAttrs(r *Run, rc *RuleCtx, le *linEval, add *ssa.Function) {
 				d := le.Eval(e).add(le.Eval(ph), -1)
 				if c, ok := d.isConst(); ok && c == 2 {
 					okStep = true
+				}
+			}
+		}
+		// the consuming form: the window itself advances, rest = rest[2:]
+		if ph, ok := in.(*ssa.Phi); ok {
+			if _, isSl := ph.Type().Underlying().(*types.Slice); isSl {
+				for _, e := range ph.Edges {
+					if sl, isS := e.(*ssa.Slice); isS && sl.X == ssa.Value(ph) && sl.High == nil && sl.Low != nil {
+						if c, isC := constInt(sl.Low); isC && c == 2 {
+							okStep = true
+						}
+					}
 				}
 			}
 		}
@@ -1417,7 +1442,7 @@ func setterRejectClass(p *Prog, g rejectGuard) string {
 var setterRejectReference = map[string][]string{
 	"(*MappedAddress).AddToAs":   {"len(IP) != 4"},
 	"(XORMappedAddress).AddToAs": {"len(IP) != 4"},
-	"(ErrorCode).AddTo":          {"not in errorReasons"},
+	"(ErrorCode).AddTo":          {"not in errorReasons", "overflow"}, // the overflow of the ERROR-CODE setter it delegates to (or carries itself)
 	"(ErrorCodeAttribute).AddTo": {"overflow"},
 	"(TextAttribute).AddToAs":    {"overflow"},
 	"(MessageIntegrity).AddTo":   {"message has attribute 0x8028"},
